@@ -126,7 +126,8 @@ class ValueOrList(t.Generic[T]):
 
 class ValueOrListConverter(UnionConverter):
     def __init__(self, ty: t.Type[Convertible], handlers: ConverterHandlers):
-        types = t.cast(t.Sequence[t.Type[Convertible]], (ty, t.List[ty]))
+        # (`list[ty]`, not `t.List[ty]`: typing may hand back an equal alias made earlier, whose unions list their members in another order)
+        types = t.cast(t.Sequence[t.Type[Convertible]], (ty, list[ty]))  # type: ignore
         super().__init__(types, constructor=lambda v, i: ValueOrList(v, i == 0), handlers=handlers)
         self.ty = ty
 
